@@ -3,9 +3,20 @@
 (* Property C03 (projective classes): general invertible integer 3x3        *)
 (* matrices (not isometries; inverse taken projectively as the adjugate)    *)
 (* acting on points, pairs, polygons (with edges), simplices, subspaces and *)
-(* transformations of RP^2, and Gaussian-integer 2x2 matrices acting on     *)
-(* points of CP^1.  Matrices act on COLUMN vectors.  TLC checks the action  *)
-(* laws on every (object, A, B) and emits the cases.                        *)
+(* transformations of RP^2, and Gaussian-integer 2x2 / 3x3 matrices acting  *)
+(* on points, pairs, polygons and transformations of CP^1 / CP^2.           *)
+(* Matrices act on COLUMN vectors.  TLC checks the action laws on every     *)
+(* (object, A, B) and emits the cases.                                      *)
+(*                                                                         *)
+(* A transformation is a projective class of matrices.  Some classes have   *)
+(* a distinguished representative: if A A^* = k 1 (A^* the conjugate        *)
+(* transpose) then A / sqrt(k) is unitary, if A A^T = k 1 it is (complex)   *)
+(* orthogonal.  Scales(A) lists those k; the replay passes A itself and     *)
+(* A / sqrt(k) for every k in Scales(A) - all of them are the same          *)
+(* transformation.  TLC checks that the inverse (adjugate) of such a class  *)
+(* is the conjugate transpose resp. the transpose, and that for a complex   *)
+(* unitary class which is not orthogonal the plain transpose is NOT the     *)
+(* inverse.                                                                 *)
 (***************************************************************************)
 EXTENDS IntLinAlg, Gauss, Naturals, FiniteSets, TLC, Json
 
@@ -18,9 +29,12 @@ Cof(M, i, j) == LET r == <<(i % 3) + 1, ((i + 1) % 3) + 1>>
 Adj3(M) == [i \in 1..3 |-> [j \in 1..3 |-> Cof(M, j, i)]]          \* transpose of the cofactor matrix
 Det3x3(M) == M[1][1] * Cof(M, 1, 1) + M[1][2] * Cof(M, 1, 2) + M[1][3] * Cof(M, 1, 3)
 
-Mats == {<<<<2, 1, 0>>, <<0, 1, 0>>, <<0, 0, 1>>>>, <<<<1, 1, 0>>, <<0, 1, 1>>, <<1, 0, 1>>>>,
-         <<<<0, 1, 0>>, <<0, 0, 1>>, <<1, 0, 0>>>>, <<<<1, 2, 3>>, <<0, 1, 4>>, <<5, 6, 0>>>>,
-         <<<<1, 0, 0>>, <<0, 2, 0>>, <<0, 0, 3>>>>, <<<<1, 0, 0 - 2>>, <<0 - 1, 1, 0>>, <<0, 3, 1>>>>}
+\* a sequence, so that other modules can address the matrices by position; the last one is 5 x a rotation
+MatList == << <<<<2, 1, 0>>, <<0, 1, 0>>, <<0, 0, 1>>>>, <<<<1, 1, 0>>, <<0, 1, 1>>, <<1, 0, 1>>>>,
+              <<<<0, 1, 0>>, <<0, 0, 1>>, <<1, 0, 0>>>>, <<<<1, 2, 3>>, <<0, 1, 4>>, <<5, 6, 0>>>>,
+              <<<<1, 0, 0>>, <<0, 2, 0>>, <<0, 0, 3>>>>, <<<<1, 0, 0 - 2>>, <<0 - 1, 1, 0>>, <<0, 3, 1>>>>,
+              <<<<3, 0 - 4, 0>>, <<4, 3, 0>>, <<0, 0, 5>>>> >>
+Mats == {MatList[i] : i \in 1..Len(MatList)}
 
 Pts == <<<<1, 0, 0>>, <<1, 2, 3>>, <<0, 1, 0 - 1>>, <<2, 0 - 1, 1>>, <<1, 1, 1>>, <<3, 1, 0 - 2>>, <<0, 0, 1>>>>
 
@@ -39,30 +53,109 @@ RAct(M, X) == IF X.cls = "transformation" THEN [X EXCEPT !.h = MPrim(MatMul(M, X
               ELSE [X EXCEPT !.rows = [i \in 1..Len(X.rows) |-> Prim(MatVec(M, X.rows[i]))]]
 RNormal(X) == IF X.cls = "transformation" THEN [X EXCEPT !.h = MPrim(X.h)] ELSE X
 
-\* ---- complex 2x2 on CP^1 (column action)
-GMatVec(M, v) == <<GAdd(GMul(M[1][1], v[1]), GMul(M[1][2], v[2])), GAdd(GMul(M[2][1], v[1]), GMul(M[2][2], v[2]))>>
-CMats == {<<<<GOne, GI>>, <<GZero, GOne>>>>, <<<<<<1, 1>>, GOne>>, <<GOne, <<0, 0 - 1>>>>>>,
-          <<<<<<2, 0>>, GI>>, <<GI, GOne>>>>, <<<<GZero, GOne>>, <<GOne, GZero>>>>}
-CPts == {<<GOne, GZero>>, <<GZero, GOne>>, <<GOne, GI>>, <<<<1, 1>>, <<2, 0 - 1>>>>, <<GI, <<3, 0>>>>}
-CObjects == {[cls |-> "cpoint", v |-> v] : v \in CPts}
-CAct(M, X) == [X EXCEPT !.v = GMatVec(M, X.v)]
-CSame(X, Y) == GProjEq(X.v, Y.v)
+\* k > 0 with M M^T = k 1, or 0
+ROrthScale(M) == LET P == MatMul(M, Transpose(M))
+                 IN IF P = MatScale(P[1][1], IdMat(3)) THEN P[1][1] ELSE 0
 
-IsC(X) == X.cls = "cpoint"
+\* ---- Gaussian-integer n x n matrices (n = 2, 3) acting on columns of CP^(n-1)
+RECURSIVE GSumS(_)
+GSumS(s) == IF s = <<>> THEN GZero ELSE GAdd(Head(s), GSumS(Tail(s)))
+CMatVec(M, v) == [r \in 1..Len(M) |-> GSumS([c \in 1..Len(v) |-> GMul(M[r][c], v[c])])]
+CMatMul(M, K) == [r \in 1..Len(M) |-> [c \in 1..Len(K[1]) |-> GSumS([j \in 1..Len(K) |-> GMul(M[r][j], K[j][c])])]]
+CId(n) == [r \in 1..n |-> [c \in 1..n |-> IF r = c THEN GOne ELSE GZero]]
+CStar(M) == [r \in 1..Len(M) |-> [c \in 1..Len(M) |-> GConj(M[c][r])]]       \* conjugate transpose
+CTr(M) == [r \in 1..Len(M) |-> [c \in 1..Len(M) |-> M[c][r]]]                \* plain transpose
+CCof3(M, i, j) == LET r == <<(i % 3) + 1, ((i + 1) % 3) + 1>>
+                      c == <<(j % 3) + 1, ((j + 1) % 3) + 1>>
+                  IN GSub(GMul(M[r[1]][c[1]], M[r[2]][c[2]]), GMul(M[r[1]][c[2]], M[r[2]][c[1]]))
+CAdj(M) == IF Len(M) = 2 THEN GAdj(M) ELSE [i \in 1..3 |-> [j \in 1..3 |-> CCof3(M, j, i)]]
+CDet(M) == IF Len(M) = 2 THEN GDet(M) ELSE GSumS([j \in 1..3 |-> GMul(M[1][j], CCof3(M, 1, j))])
+CScalar(z, n) == [r \in 1..n |-> [c \in 1..n |-> IF r = c THEN z ELSE GZero]]
+RECURSIVE Flat(_)
+Flat(M) == IF M = <<>> THEN <<>> ELSE Head(M) \o Flat(Tail(M))
+\* projective equality of non-zero Gaussian vectors: all 2 x 2 minors vanish
+CProjEq(v, w) == \A i, j \in 1..Len(v) : GMul(v[i], w[j]) = GMul(v[j], w[i])
+CNonZero(v) == \E i \in 1..Len(v) : v[i] # GZero
+CMatProjEq(M, K) == CProjEq(Flat(M), Flat(K))
+
+\* k > 0 with M M^* = k 1 (M / sqrt(k) unitary), resp. M M^T = k 1 with k a positive integer (orthogonal); else 0
+UnitScale(M) == LET P == CMatMul(M, CStar(M)) IN IF P = CScalar(P[1][1], Len(M)) THEN P[1][1][1] ELSE 0
+OrthScale(M) == LET P == CMatMul(M, CTr(M))
+                IN IF P = CScalar(P[1][1], Len(M)) /\ P[1][1][2] = 0 /\ P[1][1][1] > 0 THEN P[1][1][1] ELSE 0
+IsRealC(M) == \A r, c \in 1..Len(M) : M[r][c][2] = 0
+
+Z(a, b) == <<a, b>>
+CMats2 == {<<<<GOne, GI>>, <<GZero, GOne>>>>,                                 \* unipotent, upper triangular
+           <<<<Z(1, 1), GOne>>, <<GOne, Z(0, 0 - 1)>>>>,                      \* generic
+           <<<<Z(2, 0), GI>>, <<GI, GOne>>>>,                                 \* complex symmetric
+           <<<<GZero, GOne>>, <<GOne, GZero>>>>,                              \* real permutation
+           <<<<Z(1, 2), Z(1, 0 - 2)>>, <<Z(0 - 1, 0 - 2), Z(1, 0 - 2)>>>>,    \* sqrt(10) x SU(2): [[a, b], [-b*, a*]]
+           <<<<GOne, GZero>>, <<GZero, GI>>>>,                                \* diagonal phases (unitary)
+           <<<<GZero, GI>>, <<GOne, GZero>>>>,                                \* complex monomial (unitary)
+           <<<<Z(2, 0), GI>>, <<Z(0, 0 - 1), GOne>>>>,                        \* Hermitian, not unitary
+           <<<<Z(5, 0), Z(0, 4)>>, <<Z(0, 0 - 4), Z(5, 0)>>>>,                \* 3 x complex orthogonal, not unitary
+           <<<<Z(3, 0), Z(0, 4)>>, <<Z(0, 4), Z(3, 0)>>>>}                    \* 5 x symmetric unitary
+CMats3 == {<<<<Z(2, 1), Z(2, 0), GZero>>, <<Z(0 - 2, 0), Z(2, 0 - 1), GZero>>, <<GZero, GZero, Z(3, 0)>>>>,   \* 3 x U(3)
+           <<<<GOne, GI, GZero>>, <<GZero, GOne, GI>>, <<GI, GZero, GOne>>>>,                                   \* generic
+           <<<<GOne, GZero, GZero>>, <<GZero, GI, GZero>>, <<GZero, GZero, Z(0 - 1, 0)>>>>,                     \* phases
+           <<<<GZero, GZero, GI>>, <<GOne, GZero, GZero>>, <<GZero, GOne, GZero>>>>,                            \* monomial
+           <<<<GOne, Z(1, 1), GZero>>, <<GZero, GOne, Z(2, 0)>>, <<GZero, GZero, GOne>>>>}                      \* triangular
+CMats == CMats2 \cup CMats3
+
+CPts2 == <<<<GOne, GZero>>, <<GZero, GOne>>, <<GOne, GI>>, <<Z(1, 1), Z(2, 0 - 1)>>, <<GI, Z(3, 0)>>>>
+CPts3 == <<<<GOne, GZero, GZero>>, <<GOne, GI, GZero>>, <<Z(1, 1), Z(2, 0 - 1), GOne>>, <<GZero, GOne, GI>>, <<GI, Z(3, 0), Z(1, 0 - 1)>>>>
+CObjectsOf(P, Ms) ==
+  {[cls |-> "cpoint", rows |-> <<P[i]>>] : i \in 1..Len(P)}
+  \cup {[cls |-> "cpair", rows |-> <<P[1], P[3]>>], [cls |-> "cpair", rows |-> <<P[4], P[5]>>]}
+  \cup {[cls |-> "cpolygon", rows |-> <<P[1], P[3], P[4]>>]}
+  \cup {[cls |-> "ctransformation", rows |-> <<>>, h |-> M] : M \in Ms}
+CObjects2 == CObjectsOf(CPts2, {<<<<Z(1, 1), GOne>>, <<GOne, Z(0, 0 - 1)>>>>, <<<<Z(3, 0), Z(0, 4)>>, <<Z(0, 4), Z(3, 0)>>>>})
+CObjects3 == CObjectsOf(CPts3, {<<<<GOne, GI, GZero>>, <<GZero, GOne, GI>>, <<GI, GZero, GOne>>>>})
+
+CAct(M, X) == IF X.cls = "ctransformation" THEN [X EXCEPT !.h = CMatMul(M, X.h)]
+              ELSE [X EXCEPT !.rows = [i \in 1..Len(X.rows) |-> CMatVec(M, X.rows[i])]]
+CSame(X, Y) == /\ X.cls = Y.cls
+               /\ IF X.cls = "ctransformation" THEN CMatProjEq(X.h, Y.h)
+                  ELSE Len(X.rows) = Len(Y.rows) /\ \A i \in 1..Len(X.rows) : CNonZero(X.rows[i]) /\ CProjEq(X.rows[i], Y.rows[i])
+
+IsC(X) == X.cls \in {"cpoint", "cpair", "cpolygon", "ctransformation"}
 
 Init == \/ (obj \in RObjects /\ A \in Mats /\ B \in Mats)
-        \/ (obj \in CObjects /\ A \in CMats /\ B \in CMats)
+        \/ (obj \in CObjects2 /\ A \in CMats2 /\ B \in CMats2)
+        \/ (obj \in CObjects3 /\ A \in CMats3 /\ B \in CMats3)
 Next == UNCHANGED <<obj, A, B>>
 
-Invertible == IF IsC(obj) THEN GDet(A) # GZero /\ GDet(B) # GZero ELSE Det3x3(A) # 0 /\ Det3x3(B) # 0
-ActionLaw == IF IsC(obj) THEN CSame(CAct(GMatMul(A, B), obj), CAct(A, CAct(B, obj)))
+Invertible == IF IsC(obj) THEN CDet(A) # GZero /\ CDet(B) # GZero ELSE Det3x3(A) # 0 /\ Det3x3(B) # 0
+ActionLaw == IF IsC(obj) THEN CSame(CAct(CMatMul(A, B), obj), CAct(A, CAct(B, obj)))
              ELSE RAct(MatMul(A, B), obj) = RAct(A, RAct(B, obj))
-IdentityLaw == IF IsC(obj) THEN CSame(CAct(GId2, obj), obj) ELSE RAct(IdMat(3), obj) = RNormal(obj)
-InverseActs == IF IsC(obj) THEN CSame(CAct(GAdj(A), CAct(A, obj)), obj)
+IdentityLaw == IF IsC(obj) THEN CSame(CAct(CId(Len(A)), obj), obj) ELSE RAct(IdMat(3), obj) = RNormal(obj)
+InverseActs == IF IsC(obj) THEN CSame(CAct(CAdj(A), CAct(A, obj)), obj)
                ELSE RAct(Adj3(A), RAct(A, obj)) = RNormal(obj)
-AdjugateIsInverse == IsC(obj) \/ MatMul(A, Adj3(A)) = MatScale(Det3x3(A), IdMat(3))
+AdjugateIsInverse == IF IsC(obj) THEN CMatMul(A, CAdj(A)) = CScalar(CDet(A), Len(A)) /\ CMatMul(CAdj(A), A) = CScalar(CDet(A), Len(A))
+                     ELSE MatMul(A, Adj3(A)) = MatScale(Det3x3(A), IdMat(3))
+\* the inverse of a unitary class is its conjugate transpose, of an orthogonal class its transpose; the transpose
+\* is NOT the inverse of a unitary class unless the class is orthogonal as well
+SpecialInverses ==
+  IF IsC(obj) THEN /\ UnitScale(A) > 0 => CMatProjEq(CAdj(A), CStar(A))
+                   /\ OrthScale(A) > 0 => CMatProjEq(CAdj(A), CTr(A))
+                   /\ (UnitScale(A) > 0 /\ OrthScale(A) = 0) => ~CMatProjEq(CAdj(A), CTr(A))
+                   /\ (OrthScale(A) > 0 /\ UnitScale(A) = 0) => ~CMatProjEq(CAdj(A), CStar(A))
+  ELSE ROrthScale(A) > 0 => MPrim(Adj3(A)) = MPrim(Transpose(A))
+\* the universe contains what the header promises
+UniverseRich ==
+  /\ \E M \in CMats2 : UnitScale(M) > 1 /\ OrthScale(M) = 0 /\ ~IsRealC(M)
+  /\ \E M \in CMats2 : UnitScale(M) = 1 /\ OrthScale(M) = 0
+  /\ \E M \in CMats2 : OrthScale(M) > 1 /\ UnitScale(M) = 0
+  /\ \E M \in CMats3 : UnitScale(M) > 1 /\ OrthScale(M) = 0
+  /\ \E M \in CMats3 : UnitScale(M) = 1 /\ OrthScale(M) = 0
+  /\ \E M \in Mats : ROrthScale(M) > 1
+  /\ \E M \in Mats : Det3x3(M) \notin {1, 0 - 1}
+
+Scales(M) == IF IsC(obj) THEN {k \in {UnitScale(M), OrthScale(M)} : k > 0} ELSE {k \in {ROrthScale(M)} : k > 0}
 
 EmitCase == PrintT("CASE " \o ToJson(
-   IF IsC(obj) THEN [obj |-> obj, A |-> A, B |-> B, img |-> CAct(GMatMul(A, B), obj), imgA |-> CAct(A, obj)]
-   ELSE [obj |-> obj, A |-> A, B |-> B, img |-> RAct(MatMul(A, B), obj), imgA |-> RAct(A, obj)]))
+   IF IsC(obj) THEN [obj |-> obj, A |-> A, B |-> B, img |-> CAct(CMatMul(A, B), obj), imgA |-> CAct(A, obj),
+                     sA |-> Scales(A), sB |-> Scales(B)]
+   ELSE [obj |-> obj, A |-> A, B |-> B, img |-> RAct(MatMul(A, B), obj), imgA |-> RAct(A, obj),
+         sA |-> Scales(A), sB |-> Scales(B)]))
 =============================================================================
